@@ -51,6 +51,22 @@ CHECKS.update({
  "C20": ("model_checking", "trace validation against CheckTrace.tla and FixTrace.tla (C20_OnlyListed)", "6 C20",
    "Per file: --fix_only with nothing / every rule: all / one rule / one rule with a subset of its lines / two rules; TLC checks all==plain fix, none==untouched, only listed rules and lines fix, listed lines of a line-local rule are exactly the lines that change.", CHK_NOTE),
 })
+CHECKS.update({
+ "C05": ("exploration", "trace validation against RelayoutTrace.tla (roles of a file vs roles of its re-layouts) + TLC on Relayout.tla", "6 C05",
+   "Relational check with the specification as the oracle: every base fixture x re-layout recipe (comments at line ends / own lines, widen / narrow blanks, line breaks at every k-th blank, joins, upper / lower / flipped case) is classified by the real parser; "
+   "TLC requires the variant to be accepted and the role sequence over code tokens to be equal. Design model: roles are a function of the code only (layout-sensitive mutant fails).",
+   "Trusted: harness/variants.py (self-checked by the harness's own lexer), TLC. The classifier is covered on the explored (file, recipe) pairs only; files with pragma / preprocessor regions are left out."),
+ "C12": ("model_checking", "TLC on Config.tla (reference precedence vs transcription of the loader; known-finding and mutant configs) + real configuration stacks validated against ConfigTrace.tla", "6 C12",
+   "Design: 524k stacks of two sources x sections x {absent,a,b,a+b}. Binding: stacks instantiated as JSON files for all ~960 rules at once, loaded by config.New + configure_rules, the value every rule ends up with and acts on compared with the reference; "
+   "unknown / deprecated rule names must be diagnosed; layered vs flat configurations behave alike.",
+   "Trusted: TLC; user_error_message / indent_size stand for every configurable attribute; per-file sections come from one source per stack."),
+ "C15": ("model_checking", "TLC on Batch.tla (+leak mutant) + traced command-line runs over file lists / orders / job counts validated against BatchTrace.tla", "6 C15",
+   "Every apply_rules call of real multi-file, multi-process runs is recorded with digests of all module-level state before/after and of its result; TLC checks leak constancy, equality with the solo p=1 result, output order, exit = OR, --stdin vs by-name.",
+   "Trusted: the generic leak digest (all non-function globals and class attributes of vsg.* plus the shared config/argument objects), fork start method."),
+ "C17": ("model_checking", "trace validation against ConfigTrace.tla (-oc / -rc round trips and behaviour equivalence)", "6 C17",
+   "For styles x configuration stacks: -oc a; -c a -oc b; TLC compares the flattened contents entry by entry, -rc samples against the -oc entry, and check/fix runs under (style, stack) vs under -c a on sample inputs.",
+   "Trusted: TLC; scenarios are a designed list (styles x sweeps x layered x user severities), inputs a small sample."),
+})
 checks = []
 for pid in ids:
     if pid not in CHECKS:
